@@ -227,7 +227,7 @@ func (e mwEngine) Gen(t *rapid.T, tier string) any {
 	for i := 0; i < quota+2; i++ {
 		subs = append(subs, fmt.Sprintf("%c", 'a'+i))
 	}
-	if e.prop == "C18" && rapid.IntRange(0, 3).Draw(t, "longsubs") == 0 {
+	if (e.prop == "C18" || e.prop == "C19") && rapid.IntRange(0, 3).Draw(t, "longsubs") == 0 {
 		// long ids that share their first 64 bytes
 		subs[0] = strings.Repeat("L", 64) + "-one"
 		subs[1] = strings.Repeat("L", 64) + "-two"
@@ -283,7 +283,8 @@ func (e mwEngine) Gen(t *rapid.T, tier string) any {
 				ev.CreatedAt = now + off
 				if e.prop == "C17" && rapid.IntRange(0, 9).Draw(t, "extreme") == 0 {
 					// timestamps at the ends of the representable range
-					ev.CreatedAt = rapid.SampledFrom([]int64{math.MinInt64, math.MinInt64 + 1, math.MinInt64 + 1700000000, -1 << 62, -62135596801, -1, 0, 1 << 62, math.MaxInt64 - 62135596800, math.MaxInt64 - 1, math.MaxInt64}).Draw(t, "xts")
+					// (2^64 ns = 18446744073.7 s: where nanosecond arithmetic wraps around)
+					ev.CreatedAt = rapid.SampledFrom([]int64{now + 18446744073, now - 18446744073, now + 18446744073 + 600, now + 2*18446744073 + 1, now + 9223372036, now - 9223372037, math.MinInt64, math.MinInt64 + 1, math.MinInt64 + 1700000000, -1 << 62, -62135596801, -1, 0, 1 << 62, math.MaxInt64 - 62135596800, math.MaxInt64 - 1, math.MaxInt64}).Draw(t, "xts")
 				}
 				cl.Script = append(cl.Script, simrt.Op{Kind: "send", Msg: &simrt.Msg{T: "EVENT", Ev: &ev}})
 			case k == 10:
